@@ -18,8 +18,8 @@ def spell(v, style):
 
 
 REJ = ["4294967296", "2147483648'", "2147483648h", "4294967295'", "-1", "-1'", "-1h", "-2147483648'", "x", "1x", "'",
-       "h", "1''", "0x1", "--1", "1-", "1H", "m", "99999999999999999999", "1.0", "1e3", "", "0'h", "²"[:0] + "a'"]
-EITHER = ["+1", " 1", "1_0", "-0", "-0'", "1 '", "1 ", "\t7", "٣", "１"]
+       "h", "1''", "0x1", "--1", "1-", "1H", "m", "99999999999999999999", "1.0", "1e3", "", "0'h", "²"[:0] + "a'", "1 1", "4 4'", "1' ", "1'\n", "1__0", "_1", "1_", "2 5h", "+ 1", "1+"]
+EITHER = ["+1", " 1", "1_0", "-0", "-0'", "1 '", "1 ", "\t7", "٣", "１", "+2147483647'", "4_294_967_295", " 00 "]
 OTHER_OK = ["007", "007'", "0000000000001", "00'"]
 BADROOTS = ["", "n", "m ", " m", "mm", "0", "M'", "/m"]
 
@@ -55,6 +55,19 @@ def gen_inputs(ctx):
                     cls = "rej" if f in REJ else "either" if f in EITHER else "ok"
                     parse.append((s, ("fault", cls, f, pos == n - 1)))
                     bypath.append((s, ("fault", cls, f, pos == n - 1)))
+    # blanks fused into numerals at every position of an otherwise ordinary path
+    for base_toks in (["44'", "0'", "0'", "0", "10"], ["1", "1"], ["0'", "25h"]):
+        for pos in range(len(base_toks)):
+            t = base_toks[pos]
+            if len(t.rstrip("'h")) >= 2:
+                toks = list(base_toks)
+                toks[pos] = t[0] + " " + t[1:]
+                s = "/".join(["m"] + toks)
+                parse.append((s, ("fused-blank", pos)))
+                bypath.append((s, ("fused-blank", pos)))
+    for s in ("m /1", "m\t/0'", "m/1/2h\n", " m/1", "m/1 ", "m/ 1", "m/1/ 2 /3"):
+        parse.append((s, ("blank-placement", s)))
+        bypath.append((s, ("blank-placement", s)))
     for r in BADROOTS:
         for tail in ([], ["0"], ["0", "1'"]):
             s = "/".join([r] + tail)
